@@ -3,6 +3,7 @@ package props
 import (
 	"encoding/json"
 	"fmt"
+	"os"
 	"sort"
 	"strings"
 	"time"
@@ -116,6 +117,7 @@ func RunBlock(b *Block, ch vrt.Chooser, trace bool) (out explore.Outcome, x *Ctx
 		b.Setup(x)
 	}
 	s.NoPreempt = false
+	s.ForgetLastRun()
 	s.ExploreSelect = b.ExploreSelect
 	s.ExploreMapOrder = b.ExploreMapOrder
 	b.Fire(x)
@@ -231,6 +233,11 @@ func runS2Job(j *check.Job) *check.Result {
 		res.EngineError = "replay divergence: " + st.Diverged[0]
 	}
 	res.Extra["executions_by_deviations"] = st.ByCost
+	if os.Getenv("S2DEBUG") != "" {
+		for k, n := range st.Outcomes {
+			fmt.Printf("OUTCOME x%d %s\n", n, k)
+		}
+	}
 	for _, f := range st.Found {
 		if sample == nil {
 			sample = f.Prefix
@@ -245,9 +252,9 @@ func runS2Job(j *check.Job) *check.Result {
 func oracleTags(oracle string) []string {
 	switch oracle {
 	case "view", "probe":
-		return []string{"C01"}
+		return []string{"C01", "C06"}
 	case "relay":
-		return []string{"C02"}
+		return []string{"C02", "C13"}
 	case "isolation":
 		return []string{"C03"}
 	case "deadlock":
